@@ -615,6 +615,21 @@ func c22RandomVector(rng *rand.Rand, format string) c22Vector {
 	panic("unknown sweep format " + format)
 }
 
+// c22KnownDeviation names the deviation of EventTime.tla that allows this
+// inexact outcome for this vector ("" if none does).
+func c22KnownDeviation(v c22Vector, kind string) string {
+	floatPath := v.enc == "epoch" && (v.fmt == "header" || v.fmt == "json-str")
+	switch {
+	case kind == "near" && floatPath && len(v.digits) > 10 && !c22Overflows(v):
+		return "float-epoch"
+	case kind == "far" && floatPath && c22Overflows(v):
+		return "nanos-overflow"
+	case kind == "ignored" && v.fmt == "json-num":
+		return "json-number-ignored"
+	}
+	return ""
+}
+
 func c22Overflows(v c22Vector) bool {
 	return v.enc == "epoch" && len(v.digits) == 19 && v.digits > "9223372036854775807"
 }
@@ -672,7 +687,11 @@ func TestVerifC22Sweep(t *testing.T) {
 		want, _ := v.supplied()
 		result["evaluations"], result["distinct"] = 1, 1
 		if o["kind"] != "forwarded" || o["sec"] != fmt.Sprintf("%010d", want.sec) || o["frac"] != fmt.Sprintf("%09d", want.nsec) {
-			result["violations"] = []any{map[string]any{"format": rf.Violation.Format, "enc": v.enc, "digits": v.digits, "zone": v.zone, "outcome": o}}
+			if dev := c22KnownDeviation(v, o["kind"].(string)); dev != "" {
+				result["known"] = []any{map[string]any{"deviation": dev, "hits": 1}}
+			} else {
+				result["violations"] = []any{map[string]any{"format": rf.Violation.Format, "enc": v.enc, "digits": v.digits, "zone": v.zone, "outcome": o}}
+			}
 		}
 		write()
 		return
@@ -832,18 +851,10 @@ func TestVerifC22Sweep(t *testing.T) {
 			if len(samples) < 2 && kind == "forwarded" && format == "header-rfc3339" {
 				samples = append(samples, desc)
 			}
-			switch {
-			case kind == "forwarded":
-			case kind == "near" && c.v.enc == "epoch" && (c.v.fmt == "header" || c.v.fmt == "json-str") && len(c.v.digits) > 10 && !c22Overflows(c.v):
-				knownHits["float-epoch"]++
-			case kind == "far" && c.v.enc == "epoch" && (c.v.fmt == "header" || c.v.fmt == "json-str") && c22Overflows(c.v):
-				knownHits["nanos-overflow"]++
-			case kind == "ignored" && c.v.fmt == "json-num":
-				knownHits["json-number-ignored"]++
-			default:
-				if len(violations) < 10 {
-					violations = append(violations, desc)
-				}
+			if dev := c22KnownDeviation(c.v, kind); dev != "" {
+				knownHits[dev]++
+			} else if kind != "forwarded" && len(violations) < 10 {
+				violations = append(violations, desc)
 			}
 		}
 	}
